@@ -3,6 +3,7 @@ package props
 import (
 	"encoding/json"
 	"fmt"
+	"strings"
 
 	"github.com/freeconf/yang/meta"
 	"github.com/freeconf/yang/node"
@@ -58,7 +59,7 @@ type c09Case struct {
 }
 
 func (p *c09) Bounds(tier string) map[string]interface{} {
-	return map[string]interface{}{"depth": c09Depth(tier), "alphabet": len(c09Alphabet), "stores": append(append([]string{}, store.Impls...), "node-struct", "node-structmap"), "sources": []string{"json", "ref"}, "schema": "choice (flat with leaf/container/list/shorthand cases, nested choice in a case, choice inside a list entry)"}
+	return map[string]interface{}{"depth": c09Depth(tier), "alphabet": len(c09Alphabet), "stores": append(append([]string{}, store.Impls...), "node-struct", "node-structmap"), "sources": []string{"json", "ref", "xml"}, "schema": "choice (flat with leaf/container/list/shorthand cases, nested choice in a case, choice inside a list entry)"}
 }
 
 func c09Depth(tier string) int {
@@ -72,7 +73,7 @@ func (p *c09) Cases(tier string, emit func(interface{})) {
 	// nodeutil.Reflect over Go structs does not implement choices (every read fails with
 	// "OnChoose not implemented"): only nodeutil.Node serves the struct-backed stores here
 	for _, st := range append(append([]string{}, store.Impls...), "node-struct", "node-structmap") {
-		for _, src := range []string{"json", "ref"} {
+		for _, src := range []string{"json", "ref", "xml"} {
 			emit(c09Case{Part: "bfs", Store: st, Source: src, Depth: c09Depth(tier)})
 		}
 	}
@@ -133,6 +134,10 @@ func c09Step(c c09Case, inst *c09Inst, op c09Op) []eng.StepViol {
 		var src node.Node
 		if c.Source == "json" {
 			if src, uerr = nodeutil.ReadJSON(op.Doc); uerr != nil {
+				return
+			}
+		} else if c.Source == "xml" {
+			if src, uerr = nodeutil.ReadXMLDoc(strings.NewReader("<data>" + xmlBody(m.DataDefinitions(), s) + "</data>")); uerr != nil {
 				return
 			}
 		} else {
